@@ -282,7 +282,18 @@ func c06Suppression(c *Ctx, t *checkTables) {
 				}
 			}
 		}
-		c.Ob(rule, "filterAnnotations/filter-of-input", fa.Decl.Pos(), ok, true, "the result is slicesext.FilterError applied to the annotations parameter (nothing is added): %v", ok)
+		isIgnoreCall := func(cc *ssa.CallCommon) bool {
+			o := staticCalleeObj(cc)
+			return o != nil && (o.Name() == "ignoreAnnotation" || o.Name() == "ignoreFileLocation")
+		}
+		loop := (*annFilterLoop)(nil)
+		if !ok {
+			// the hand-written form: a loop appending elements of the parameter
+			if loop = findAnnFilterLoop(sf); loop != nil && loop.OnlyInput {
+				ok = true
+			}
+		}
+		c.Ob(rule, "filterAnnotations/filter-of-input", fa.Decl.Pos(), ok, true, "the result is slicesext.FilterError applied to the annotations parameter, or only elements of it are appended (nothing is added): %v", ok)
 		// the predicate keeps an annotation iff it is not ignored
 		neg := false
 		ast.Inspect(fa.Decl.Body, func(n ast.Node) bool {
@@ -293,7 +304,10 @@ func c06Suppression(c *Ctx, t *checkTables) {
 			}
 			return true
 		})
-		c.Ob(rule, "filterAnnotations/keeps-not-ignored", fa.Decl.Pos(), neg, true, "the filter predicate returns the negation of the ignore decision: %v", neg)
+		if loop != nil && !neg {
+			neg = loop.keepsNotIgnored(isIgnoreCall)
+		}
+		c.Ob(rule, "filterAnnotations/keeps-not-ignored", fa.Decl.Pos(), neg, true, "the filter predicate returns the negation of the ignore decision (or the loop appends only where it is false): %v", neg)
 	} else {
 		c.Fail(rule, "filterAnnotations", token.NoPos, "not found")
 	}
@@ -354,6 +368,63 @@ func c06Suppression(c *Ctx, t *checkTables) {
 		}
 		ok := cur != nil && against != nil && g.Reachable(cur, against)
 		c.Ob(rule, "ignoreAnnotation/both-locations", ia.Decl.Pos(), ok, true,
+			"the current and the against location are each passed to ignoreFileLocation, and the against test is reachable after the current one was examined: %v", ok)
+	} else if fa := p.Func("private/bufpkg/bufcheck", "filterAnnotations"); fa != nil && fa.Obj != nil {
+		// no separate ignoreAnnotation: the two ignoreFileLocation calls are looked for in what filterAnnotations runs
+		locOf := func(v ssa.Value) string {
+			cur, against := false, false
+			sliceBack(v, func(x ssa.Value) bool {
+				if call, ok := x.(*ssa.Call); ok {
+					name := ""
+					if o := staticCalleeObj(&call.Call); o != nil {
+						name = o.Name()
+					} else if call.Call.IsInvoke() {
+						name = call.Call.Method.Name()
+					}
+					switch name {
+					case "FileLocation":
+						cur = true
+					case "AgainstFileLocation":
+						against = true
+					}
+				}
+				return true
+			})
+			switch {
+			case cur && !against:
+				return "cur"
+			case against && !cur:
+				return "against"
+			}
+			return ""
+		}
+		ok := false
+		for _, f := range reachSSA(p.SSAFunc(fa.Obj), 2) {
+			if f.Pkg == nil || f.Pkg.Pkg.Path() != pk.PkgPath {
+				continue
+			}
+			var cur, against []*ssa.Call
+			for _, sc := range callsIn(f) {
+				if o := staticCalleeObj(sc.Call); o != nil && o.Name() == "ignoreFileLocation" && len(sc.Call.Args) == 3 {
+					if call, isCall := sc.Instr.(*ssa.Call); isCall {
+						switch locOf(sc.Call.Args[2]) {
+						case "cur":
+							cur = append(cur, call)
+						case "against":
+							against = append(against, call)
+						}
+					}
+				}
+			}
+			for _, a := range cur {
+				for _, b := range against {
+					if a.Block() == b.Block() || blockReaches(a.Block(), b.Block()) {
+						ok = true
+					}
+				}
+			}
+		}
+		c.Ob(rule, "ignoreAnnotation/both-locations", fa.Decl.Pos(), ok, true,
 			"the current and the against location are each passed to ignoreFileLocation, and the against test is reachable after the current one was examined: %v", ok)
 	} else {
 		c.Fail(rule, "ignoreAnnotation", token.NoPos, "not found")
